@@ -118,7 +118,9 @@ def check(case):
                         boolish = ref.boolean_used_arithmetically() or any(mg.boolean_valued(ref.assigns[f"d{s_}_dt"].ast, ()) for s_ in ref.states)
                     except Exception:  # noqa: BLE001
                         boolish = False
-                    if boolish and "Boolean" in msg_:
+                    if "_print_Piecewise" in cm.exc_site(e.exc) and cm.piecewise_collapses(cm.model_exprs(ode) + cm.own_state_derivative_exprs(ode)):
+                        nons = cm.PW_COLLAPSES  # the listed C01 defect (sympy.simplify inside _print_Piecewise) reached through the linearisation
+                    elif boolish and "Boolean" in msg_:
                         nons = ":boolean-used-arithmetically"  # the listed C01 / C20 defect reached through the own-state derivative
                     elif "Unsupported by" in msg_ and msg_.split(":")[1].strip().split()[0:1] == ["re"]:
                         nons = ":unprintable-re"  # abs of an expression in the (not real-declared) time symbol: listed C01 defect
